@@ -238,6 +238,9 @@ func (vc *FnVC) doAlloc(x *ssa.Alloc) {
 	if !x.Heap {
 		vc.setLocal(x, vc.sorts.zero(et))
 		vc.addrs[x] = &Addr{kind: aLocal, alloc: x, rootT: et, T: et}
+		if privateSlice(x) {
+			vc.privSlices[x] = true
+		}
 		return
 	}
 	r := vc.newRef(hintName(x))
@@ -276,6 +279,9 @@ func (vc *FnVC) doAlloc(x *ssa.Alloc) {
 		key, _ := vc.boxKey(et)
 		vc.set(key, sStore(vc.cur(key), r, vc.sorts.zero(et)))
 		vc.addrs[x] = &Addr{kind: aBox, key: key, ref: r, rootT: et, T: et}
+		if stableCaptured(x) {
+			vc.stableBoxes = append(vc.stableBoxes, stableBox{key, r})
+		}
 	}
 	vc.regs[x] = Val{r, x.Type(), SInt}
 }
@@ -309,11 +315,14 @@ func (vc *FnVC) doUnOp(x *ssa.UnOp) {
 			vc.assume(vc.typeFacts(r))
 			if a.fieldInv != "nullable" {
 				vc.assume(vc.regimeFacts(r.S, x.Type(), 0))
-			} else if isRegimeIface(x.Type()) {
-				// a nullable Element field: nil, or a valid element
-				vc.assume(sOr(sEq(sx("if.tag", r.S), "0"), vc.regimeFacts(r.S, x.Type(), 0)))
+			} else if r.K == SIface {
+				// a nullable interface field: nil, or a non-nil pointer
+				vc.assume(sOr(sEq(sx("if.tag", r.S), "0"), sNot(sEq(sx("if.ptr", r.S), "0"))))
 			}
 			if a.kind == aField && a.fieldInv == "nonnil" && len(a.path) == 0 {
+				vc.assume(nonNilTerm(r.S, r.K))
+			}
+			if a.kind == aMem && len(a.path) == 0 && a.idx != "" && vc.eng.specs.FieldInvs["elem:"+strings.TrimPrefix(a.key, "Mem$")] == "nonnil" {
 				vc.assume(nonNilTerm(r.S, r.K))
 			}
 			vc.assumeTypeInv(r, false)
@@ -539,6 +548,12 @@ func (vc *FnVC) doMakeInterface(x *ssa.MakeInterface) {
 	tag := vc.eng.tags.tagOf(x.X.Type())
 	vc.sorts.usedTags[tag] = true
 	if isPointerLike(x.X.Type()) {
+		if isErrorType(x.Type()) {
+			vc.assert("error-invariant", "pointer turned into an error is non-nil", sNot(sEq(v.S, "0")))
+		}
+		if vc.isImmutableIface(x.Type()) {
+			vc.assert("field-invariant", "syntax-tree node turned into an interface is non-nil", sNot(sEq(v.S, "0")))
+		}
 		vc.setReg(x, sx("mk-iface", fmt.Sprint(tag), v.S))
 		return
 	}
